@@ -86,7 +86,7 @@ def findRootClasses(
         ) -> Sequence[Tuple[str, Union[model.Class, Sequence[model.Class]]]]:
     roots: Dict[str, Union[model.Class, List[model.Class]]] = {}
     for cls in system.objectsOfType(model.Class):
-        if ' ' in cls.name or not cls.isVisible:
+        if not util.is_documented(cls):
             continue
         if cls.bases:
             for name, base in zip(cls.bases, cls.baseobjects):
@@ -142,8 +142,7 @@ def subclassesFrom(
         anchors.add(name)
     r(tags.div(tags.code(linker.taglink(cls, page_url)), ' - ',
       epydoc2stan.format_summary(cls)))
-    scs = [sc for sc in cls.subclasses if sc.system is hostsystem and ' ' not in sc.fullName()
-           and sc.isVisible]
+    scs = [sc for sc in cls.subclasses if sc.system is hostsystem and util.is_documented(sc)]
     if len(scs) > 0:
         ul = tags.ul()
         for sc in sorted(scs, key=_lckey):
@@ -278,7 +277,7 @@ class NameIndexPage(Page):
         super().__init__(system=system, template_lookup=template_lookup)
         self.initials: Dict[str, List[model.Documentable]] = {}
         for ob in self.system.allobjects.values():
-            if ob.isVisible:
+            if util.is_documented(ob):
                 self.initials.setdefault(ob.name[0].upper(), []).append(ob)
 
 
@@ -347,7 +346,7 @@ class UndocumentedSummaryPage(Page):
     @renderer
     def stuff(self, request: object, tag: Tag) -> Tag:
         undoccedpublic = [o for o in self.system.allobjects.values()
-                          if o.isVisible and not hasdocstring(o)]
+                          if util.is_documented(o) and not hasdocstring(o)]
         undoccedpublic.sort(key=lambda o:o.fullName())
         for o in undoccedpublic:
             kind = o.kind
